@@ -5,9 +5,13 @@ Open Scope Z_scope.
 
 Inductive mp :=
 | MNil | MBool (b : bool) | MInt (z : Z) | MF64 (x : bf) | MStr (s : str)
-| MType (j : jv)                       (* bin item holding a JSON type description *)
+| MBin (s : str) (tj : option jv)      (* bin item; [tj] = its content parsed as JSON when it is valid JSON (supplied by the harness) *)
 | MArr (l : list mp) | MMap (l : list (mp * mp))
-| MUnk (refs : list (Z * mp)).         (* ext item; [] = the plain unknown marker *)
+| MUnk (n : Z) (items : list mp)       (* ext item read as an unknown value: entry count of its refinement map and the items that follow
+                                          the map header, flat (key, value, key, value ...); n = 0, items = [] is the plain marker *)
+| MExt                                 (* ext item longer than one byte with a type code other than 0x0c *)
+| MBad                                 (* bytes that are not an item (only at the end of a refinement body) *)
+| MNaN.                                (* a float item holding a NaN *)
 
 Fixpoint mp_eqb (a b : mp) {struct a} : bool :=
   match a, b with
@@ -16,7 +20,8 @@ Fixpoint mp_eqb (a b : mp) {struct a} : bool :=
   | MInt x, MInt y => x =? y
   | MF64 x, MF64 y => bf_eqb x y
   | MStr x, MStr y => str_eqb x y
-  | MType x, MType y => jv_eqb x y
+  | MBin x (Some tx), MBin y (Some ty) => jv_eqb tx ty       (* type descriptions are compared as JSON, not as bytes *)
+  | MBin x None, MBin y None => str_eqb x y
   | MArr l1, MArr l2 =>
       (fix go (l1 l2 : list mp) : bool :=
          match l1, l2 with [], [] => true | x :: l1', y :: l2' => mp_eqb x y && go l1' l2' | _, _ => false end) l1 l2
@@ -27,15 +32,55 @@ Fixpoint mp_eqb (a b : mp) {struct a} : bool :=
          | x :: l1', y :: l2' => mp_eqb (fst x) (fst y) && mp_eqb (snd x) (snd y) && go l1' l2'
          | _, _ => false
          end) l1 l2
-  | MUnk l1, MUnk l2 =>
-      (fix go (l1 l2 : list (Z * mp)) : bool :=
-         match l1, l2 with
-         | [], [] => true
-         | x :: l1', y :: l2' => (fst x =? fst y) && mp_eqb (snd x) (snd y) && go l1' l2'
-         | _, _ => false
-         end) l1 l2
+  | MUnk n1 l1, MUnk n2 l2 =>
+      (n1 =? n2) &&
+      (fix go (l1 l2 : list mp) : bool :=
+         match l1, l2 with [], [] => true | x :: l1', y :: l2' => mp_eqb x y && go l1' l2' | _, _ => false end) l1 l2
+  | MExt, MExt => true
+  | MBad, MBad => true
+  | MNaN, MNaN => true
   | _, _ => false
   end.
+
+(* ---------- what the msgpack library's typed readers accept (vmihailenco/msgpack v5) ---------- *)
+Definition wrap64 (z : Z) : Z := if 9223372036854775807 <? z then z - 18446744073709551616 else z.
+Definition dec_bool (m : mp) : option bool := match m with MNil => Some false | MBool b => Some b | _ => None end.
+Definition dec_int64 (m : mp) : option Z := match m with MNil => Some 0 | MInt z => Some (wrap64 z) | _ => None end.
+Definition dec_string (m : mp) : option str :=
+  match m with MNil => Some [] | MStr s => Some s | MBin s _ => Some s | _ => None end.
+
+(* utf8.ValidString *)
+Definition u8cont (b : N) : bool := ((128 <=? b) && (b <=? 191))%N.
+Fixpoint utf8_valid_at (fuel : nat) (s : list N) : bool :=
+  match fuel with
+  | O => match s with [] => true | _ => false end
+  | S f =>
+    match s with
+    | [] => true
+    | b0 :: r =>
+      if (b0 <? 128)%N then utf8_valid_at f r
+      else if ((194 <=? b0) && (b0 <=? 223))%N then
+        match r with b1 :: r' => u8cont b1 && utf8_valid_at f r' | _ => false end
+      else if ((224 <=? b0) && (b0 <=? 239))%N then
+        match r with
+        | b1 :: b2 :: r' =>
+            let lo := if (b0 =? 224)%N then 160%N else 128%N in
+            let hi := if (b0 =? 237)%N then 159%N else 191%N in
+            ((lo <=? b1) && (b1 <=? hi))%N && u8cont b2 && utf8_valid_at f r'
+        | _ => false
+        end
+      else if ((240 <=? b0) && (b0 <=? 244))%N then
+        match r with
+        | b1 :: b2 :: b3 :: r' =>
+            let lo := if (b0 =? 240)%N then 144%N else 128%N in
+            let hi := if (b0 =? 244)%N then 143%N else 191%N in
+            ((lo <=? b1) && (b1 <=? hi))%N && u8cont b2 && u8cont b3 && utf8_valid_at f r'
+        | _ => false
+        end
+      else false
+    end
+  end.
+Definition utf8_valid (s : str) : bool := utf8_valid_at (length s) s.
 
 (* ---------- numbers ---------- *)
 Definition mp_of_number (x : bf) : mp :=
@@ -53,7 +98,7 @@ Definition number_of_mp (m : mp) : res value :=
   match m with
   | MInt z => Ok (v_int z)
   | MF64 x => Ok (v_num (match x with BInf n _ => BInf n 53 | BFin n s e _ => BFin n s e 53 end))
-  | MStr s => match bf_parse s 512 with POk x => Ok (v_num x) | PErr => Err OtherError end
+  | MStr s | MBin s _ => match bf_parse s 512 with POk x => Ok (v_num x) | PErr => Err OtherError end
   | _ => Err OtherError
   end.
 
@@ -65,66 +110,107 @@ Definition k_lmin := 5. Definition k_lmax := 6.
    longer than 256 bytes (prefix[:255] through SafeKnownPrefix), supplied by the harness *)
 Definition mp_of_unknown (trunc : str -> str) (v : value) : res mp :=
   do rg <- range_of v;
-  if is_dyn (rty rg) then Ok (MUnk []) else
-  let e_null := if definitely_not_null_r rg then [(k_null, MBool false)] else [] in
+  if is_dyn (rty rg) then Ok (MUnk 0 []) else
+  let e_null := if definitely_not_null_r rg then [MInt k_null; MBool false] else [] in
   do rest <-
     match rty rg with
     | TNum =>
         do lo <- num_lower rg; do hi <- num_upper rg;
         let enc (b : value * bool) := MArr [match pnum (fst b) with Some x => mp_of_number (fst x) | None => MNil end; MBool (snd b)] in
         let is_id (v : value) (id : numid) := match vp v with PNum _ i => numid_eqb i id | _ => false end in
-        Ok ((if is_known (fst lo) && negb (is_id (fst lo) IdNInf) then [(k_nmin, enc lo)] else []) ++
-            (if is_known (fst hi) && negb (is_id (fst hi) IdPInf) then [(k_nmax, enc hi)] else []))
+        Ok ((if is_known (fst lo) && negb (is_id (fst lo) IdNInf) then [MInt k_nmin; enc lo] else []) ++
+            (if is_known (fst hi) && negb (is_id (fst hi) IdPInf) then [MInt k_nmax; enc hi] else []))
     | TStr =>
         do p <- str_prefix rg;
         match p with
         | [] => Ok []
-        | _ => Ok [(k_prefix, MStr (if Nat.ltb 256 (length p) then trunc p else p))]
+        | _ => Ok [MInt k_prefix; MStr (if Nat.ltb 256 (length p) then trunc p else p)]
         end
     | TList _ | TSet _ | TMap _ =>
         do lo <- len_lower rg; do hi <- len_upper rg;
-        Ok ((if lo =? 0 then [] else [(k_lmin, MInt lo)]) ++ (if hi =? max_int then [] else [(k_lmax, MInt hi)]))
+        Ok ((if lo =? 0 then [] else [MInt k_lmin; MInt lo]) ++ (if hi =? max_int then [] else [MInt k_lmax; MInt hi]))
     | _ => Ok []
     end;
-  Ok (MUnk (e_null ++ rest)).
+  let items := e_null ++ rest in
+  Ok (MUnk (Z.of_nat (Nat.div2 (length items))) items).
 
 (* unmarshalUnknownValue: replay the refinement entries through the builder; builder panics are
-   decoding errors (fix: commit 385f5b2) *)
-Definition unknown_of_mp (norm : str -> str) (refs : list (Z * mp)) (t : ty) : res value :=
-  match refs with
-  | [] => Ok (v_unknown t)
-  | _ =>
+   decoding errors (fix: commit 385f5b2).  The refinement map is read as a stream: a key the decoder
+   does not know is ignored WITHOUT consuming its value, so that value is read as the next key. *)
+Definition bound_of_mp (m : mp) : res (value * bool) :=
+  match m with
+  | MArr [nb; ib] =>
+      match nb with
+      | MNil | MUnk _ _ | MExt | MBad => Err OtherError
+      | _ => match number_of_mp nb with
+             | Ok bound => match ib with
+                           | MBool inc => Ok (bound, inc)
+                           | _ => Err OtherError      (* nil, unknown or non-bool *)
+                           end
+             | _ => Err OtherError
+             end
+      end
+  | _ => Err OtherError
+  end.
+
+Fixpoint replay_refs (norm : str -> str) (t : ty) (n : nat) (items : list mp) (b : builder) : res builder :=
+  match n with
+  | O => Ok b
+  | S n' =>
+    match items with
+    | [] => Err OtherError                         (* end of the extension body *)
+    | kitem :: rest =>
+      match dec_int64 kitem with
+      | None => Err OtherError
+      | Some k =>
+        if k =? k_null then
+          match rest with
+          | v :: rest' => match dec_bool v with
+                          | Some true => do b' <- rb_null b; replay_refs norm t n' rest' b'
+                          | Some false => do b' <- rb_not_null b; replay_refs norm t n' rest' b'
+                          | None => Err OtherError
+                          end
+          | [] => Err OtherError
+          end
+        else if k =? k_prefix then
+          match t, rest with
+          | TStr, v :: rest' => match dec_string v with
+                                | Some s => if utf8_valid s then do b' <- rb_prefix_full norm b s; replay_refs norm t n' rest' b'
+                                            else Err OtherError
+                                | None => Err OtherError
+                                end
+          | _, _ => Err OtherError
+          end
+        else if (k =? k_lmin) || (k =? k_lmax) then
+          if negb (is_coll t) then Err OtherError else
+          match rest with
+          | v :: rest' => match dec_int64 v with
+                          | Some z => do b' <- (if k =? k_lmin then rb_len_lower b z else rb_len_upper b z); replay_refs norm t n' rest' b'
+                          | None => Err OtherError
+                          end
+          | [] => Err OtherError
+          end
+        else if (k =? k_nmin) || (k =? k_nmax) then
+          match t, rest with
+          | TNum, v :: rest' =>
+              match bound_of_mp v with
+              | Ok (bound, inc) => do b' <- (if k =? k_nmin then rb_num_lower b bound inc else rb_num_upper b bound inc);
+                                   replay_refs norm t n' rest' b'
+              | _ => Err OtherError
+              end
+          | _, _ => Err OtherError
+          end
+        else replay_refs norm t n' rest b          (* unknown key: ignored, its value is NOT skipped *)
+      end
+    end
+  end.
+
+Definition unknown_of_mp (norm : str -> str) (n : Z) (items : list mp) (t : ty) : res value :=
+  match items, n with
+  | [], 0 => Ok (v_unknown t)
+  | _, _ =>
     if is_dyn t then Ok (v_unknown t) else
-    let step (b : res builder) (e : Z * mp) : res builder :=
-      do b0 <- b;
-      let k := fst e in
-      if k =? k_null then
-        match snd e with MBool true => rb_null b0 | MBool false => rb_not_null b0 | _ => Err OtherError end
-      else if k =? k_prefix then
-        match t, snd e with
-        | TStr, MStr s => rb_prefix_full norm b0 s
-        | _, _ => Err OtherError
-        end
-      else if (k =? k_lmin) || (k =? k_lmax) then
-        if negb (is_coll t) then Err OtherError else
-        match snd e with
-        | MInt n => if k =? k_lmin then rb_len_lower b0 n else rb_len_upper b0 n
-        | _ => Err OtherError
-        end
-      else if (k =? k_nmin) || (k =? k_nmax) then
-        match t, snd e with
-        | TNum, MArr [nb; MBool inc] =>
-            match nb with
-            | MNil => Err OtherError
-            | _ => match number_of_mp nb with
-                   | Ok bound => if k =? k_nmin then rb_num_lower b0 bound inc else rb_num_upper b0 bound inc
-                   | _ => Err OtherError
-                   end
-            end
-        | _, _ => Err OtherError
-        end
-      else Ok b0 in     (* unknown keys are skipped *)
-    match fold_left step refs (Ok (refine (v_unknown t))) with
+    match replay_refs norm t (Z.to_nat n) items (refine (v_unknown t)) with
     | Ok b => match rb_new_value b with Panic => Err OtherError | r => r end
     | Panic => Err OtherError
     | r => match r with Err e => Err e | _ => OutOfFuel end
@@ -140,7 +226,7 @@ Fixpoint mp_marshal_at (trunc : str -> str) (fuel : nat) (v : value) (t : ty) : 
     if is_dyn t && negb (is_dyn (vty v)) then
       match type_to_json (vty v) with
       | Ok tj => match mp_marshal_at trunc f v (vty v) with
-                 | Ok m => Ok (MArr [MType tj; m])
+                 | Ok m => Ok (MArr [MBin [] (Some tj); m])
                  | r => r
                  end
       | _ => Err OtherError
@@ -200,26 +286,32 @@ Fixpoint mp_size (m : mp) : nat :=
   match m with
   | MArr l => S (fold_right (fun x n => mp_size x + n)%nat 0%nat l)
   | MMap l => S ((fix go (l : list (mp * mp)) : nat := match l with [] => 0 | kv :: l' => mp_size (fst kv) + mp_size (snd kv) + go l' end)%nat l)
-  | MUnk l => S ((fix go (l : list (Z * mp)) : nat := match l with [] => 0 | kv :: l' => mp_size (snd kv) + go l' end)%nat l)
+  | MUnk _ l => S (fold_right (fun x n => mp_size x + n)%nat 0%nat l)
   | _ => 1%nat
   end.
 
-Fixpoint mp_unmarshal_at (norm : str -> str) (fuel : nat) (m : mp) (t : ty) : res value :=
+Fixpoint mp_unmarshal_at (norm : str -> str) (jp : str -> option jv) (fuel : nat) (m : mp) (t : ty) : res value :=
   match fuel with
   | O => OutOfFuel
   | S f =>
     match m with
-    | MUnk refs => unknown_of_mp norm refs t
+    | MUnk n items => unknown_of_mp norm n items t
+    | MExt | MBad => Err OtherError
     | _ =>
       match t with
       | TDyn =>
           match m with
           | MNil => Ok (v_null TDyn)
-          | MArr [MType tj; body] =>
-              match type_of_json norm tj with
-              | Ok t' => mp_unmarshal_at norm f body t'
-              | Err _ => Err OtherError
-              | r => match r with Panic => Panic | _ => OutOfFuel end
+          | MArr [tyitem; body] =>
+              let otj := match tyitem with MBin _ o => o | MStr s => jp s | _ => None end in   (* DecodeBytes takes str and bin; nil gives no bytes *)
+              match otj with
+              | None => Err OtherError
+              | Some tj =>
+                match type_of_json norm tj with
+                | Ok t' => mp_unmarshal_at norm jp f body (strip_opt t')   (* fix: commit bdce01e *)
+                | Err _ => Err OtherError
+                | r => match r with Panic => Panic | _ => OutOfFuel end
+                end
               end
           | _ => Err OtherError
           end
@@ -230,12 +322,12 @@ Fixpoint mp_unmarshal_at (norm : str -> str) (fuel : nat) (m : mp) (t : ty) : re
           match t with
           | TBool => match m with MBool b => Ok (v_bool b) | _ => Err OtherError end
           | TNum => number_of_mp m
-          | TStr => match m with MStr s => Ok (v_str (norm s)) | _ => Err OtherError end
+          | TStr => match m with MStr s | MBin s _ => Ok (v_str (norm s)) | _ => Err OtherError end
           | TList e =>
               match m with
               | MArr l =>
                   do vs <- (fix go (l : list mp) : res (list value) :=
-                              match l with [] => Ok [] | x :: l' => do v <- mp_unmarshal_at norm f x e; do r <- go l'; Ok (v :: r) end) l;
+                              match l with [] => Ok [] | x :: l' => do v <- mp_unmarshal_at norm jp f x e; do r <- go l'; Ok (v :: r) end) l;
                   match vs with [] => Ok (V (TList e) (PSeq [])) | _ => if can_coll vs then list_val vs else Err OtherError end
               | _ => Err OtherError
               end
@@ -243,7 +335,7 @@ Fixpoint mp_unmarshal_at (norm : str -> str) (fuel : nat) (m : mp) (t : ty) : re
               match m with
               | MArr l =>
                   do vs <- (fix go (l : list mp) : res (list value) :=
-                              match l with [] => Ok [] | x :: l' => do v <- mp_unmarshal_at norm f x e; do r <- go l'; Ok (v :: r) end) l;
+                              match l with [] => Ok [] | x :: l' => do v <- mp_unmarshal_at norm jp f x e; do r <- go l'; Ok (v :: r) end) l;
                   match vs with [] => Ok (V (TSet e) (PSet [])) | _ => if can_coll (map (fun v => fst (unmark_deep v)) vs) then set_val vs else Err OtherError end
               | _ => Err OtherError
               end
@@ -253,9 +345,9 @@ Fixpoint mp_unmarshal_at (norm : str -> str) (fuel : nat) (m : mp) (t : ty) : re
                   do kvs <- (fix go (l : list (mp * mp)) : res (list (str * value)) :=
                                match l with
                                | [] => Ok []
-                               | kv :: l' => match fst kv with
-                                             | MStr k => do v <- mp_unmarshal_at norm f (snd kv) e; do r <- go l'; Ok ((k, v) :: r)
-                                             | _ => Err OtherError
+                               | kv :: l' => match dec_string (fst kv) with
+                                             | Some k => do v <- mp_unmarshal_at norm jp f (snd kv) e; do r <- go l'; Ok ((k, v) :: r)
+                                             | None => Err OtherError
                                              end
                                end) l;
                   match kvs with [] => Ok (V (TMap e) (PMap [])) | _ => if can_coll (map snd kvs) then map_val norm kvs else Err OtherError end
@@ -267,7 +359,7 @@ Fixpoint mp_unmarshal_at (norm : str -> str) (fuel : nat) (m : mp) (t : ty) : re
                   if negb (Nat.eqb (length l) (length es)) then Err OtherError else
                   do vs <- (fix go (ts : list ty) (l : list mp) : res (list value) :=
                               match l, ts with
-                              | x :: l', te :: ts' => do v <- mp_unmarshal_at norm f x te; do r <- go ts' l'; Ok (v :: r)
+                              | x :: l', te :: ts' => do v <- mp_unmarshal_at norm jp f x te; do r <- go ts' l'; Ok (v :: r)
                               | _, _ => Ok []
                               end) es l;
                   Ok (tuple_val vs)
@@ -281,12 +373,12 @@ Fixpoint mp_unmarshal_at (norm : str -> str) (fuel : nat) (m : mp) (t : ty) : re
                                match l with
                                | [] => Ok []
                                | kv :: l' =>
-                                   match fst kv with
-                                   | MStr k => match lookup k attrs with
+                                   match dec_string (fst kv) with
+                                   | Some k => match lookup k attrs with
                                                | None => Err OtherError
-                                               | Some ta => do v <- mp_unmarshal_at norm f (snd kv) ta; do r <- go l'; Ok ((k, v) :: r)
+                                               | Some ta => do v <- mp_unmarshal_at norm jp f (snd kv) ta; do r <- go l'; Ok ((k, v) :: r)
                                                end
-                                   | _ => Err OtherError
+                                   | None => Err OtherError
                                    end
                                end) l;
                   let given := fold_left (fun acc kv => kv_insert (fst kv) (snd kv) acc) kvs [] in
@@ -300,15 +392,51 @@ Fixpoint mp_unmarshal_at (norm : str -> str) (fuel : nat) (m : mp) (t : ty) : re
       end
     end
   end.
-Definition mp_unmarshal (norm : str -> str) (m : mp) (t : ty) : res value := mp_unmarshal_at norm (S (mp_size m)) m t.
+Definition mp_unmarshal (norm : str -> str) (jp : str -> option jv) (m : mp) (t : ty) : res value :=
+  mp_unmarshal_at norm jp (S (mp_size m)) m t.
+
+(* ---------- ImpliedType ---------- *)
+Fixpoint mp_implied_at (norm : str -> str) (fuel : nat) (m : mp) : res ty :=
+  match fuel with
+  | O => OutOfFuel
+  | S f =>
+    match m with
+    | MNil | MUnk _ _ | MExt => Ok TDyn
+    | MBool _ => Ok TBool
+    | MInt _ | MF64 _ | MNaN => Ok TNum
+    | MStr _ => Ok TStr
+    | MBin _ _ | MBad => Err OtherError
+    | MArr l =>
+        do ts <- (fix go (l : list mp) : res (list ty) :=
+                    match l with [] => Ok [] | x :: l' => do t <- mp_implied_at norm f x; do r <- go l'; Ok (t :: r) end) l;
+        Ok (TTuple ts)
+    | MMap l =>
+        do kts <- (fix go (l : list (mp * mp)) : res (list (str * ty)) :=
+                     match l with
+                     | [] => Ok []
+                     | kv :: l' => match dec_string (fst kv) with
+                                   | Some k => do t <- mp_implied_at norm f (snd kv); do r <- go l'; Ok ((k, t) :: r)
+                                   | None => Err OtherError
+                                   end
+                     end) l;
+        Ok (TObj (fold_left (fun acc kt => kv_insert (norm (fst kt)) (snd kt) acc) (fold_left (fun acc kt => kv_insert (fst kt) (snd kt) acc) kts []) []) [])
+    end
+  end.
+(* the buffer holds exactly one item, else "extra bytes" *)
+Definition mp_implied_type (norm : str -> str) (ms : list mp) : res ty :=
+  match ms with
+  | [m] => mp_implied_at norm (S (mp_size m)) m
+  | m :: _ => match mp_implied_at norm (S (mp_size m)) m with Ok _ => Err OtherError | r => r end
+  | [] => Err OtherError
+  end.
 
 (* ---------- correspondence cases ---------- *)
 Inductive k16 :=
 | K16_marshal (tr : list (str * str)) (v : value) (t : ty) (obs : res mp)
-| K16_unmarshal (tbl : list (str * str)) (m : mp) (t : ty) (obs : res value).
+| K16_unmarshal (tbl : list (str * str)) (jt : list (str * jv)) (m : mp) (t : ty) (obs : res value).
 Definition tbl_fn (tbl : list (str * str)) (s : str) : str := match lookup s tbl with Some r => r | None => s end.
 Definition k16_check (k : k16) : bool :=
   match k with
   | K16_marshal tr v t obs => res_eqb_anyerr mp_eqb (mp_marshal (tbl_fn tr) v t) obs
-  | K16_unmarshal tbl m t obs => res_eqb_anyerr value_eqb (mp_unmarshal (tbl_fn tbl) m t) obs
+  | K16_unmarshal tbl jt m t obs => res_eqb_anyerr value_eqb (mp_unmarshal (tbl_fn tbl) (fun s => lookup s jt) m t) obs
   end.
